@@ -606,6 +606,9 @@ func (c13) Generate(r *rand.Rand, t string) []*Case {
 	for i := 0; i < np; i++ {
 		out = append(out, c13ProgramCase(r, thorough))
 	}
+
+	// (6) zero-length variadic calls followed by chaining (c13_zero.go)
+	out = append(out, c13zGenerate(r, t)...)
 	return out
 }
 
@@ -1298,6 +1301,8 @@ func (c13) Oracle(c *Case, got []hist.Obs) string {
 		return c13HalfOracle(c, got)
 	case "live":
 		return c13LiveOracle(c, got)
+	case "zero":
+		return c13zOracle(c, got)
 	case "list":
 		if len(got) != 2 {
 			return fmt.Sprintf("expected 2 observations, got %d", len(got))
